@@ -233,7 +233,24 @@ COINCIDENT_TRANSFORMS = [
     ('path_scaled1.1', lambda s: Path(s).scaled(1.1)[0], lambda d: d),
     ('path_scaled_third_about', lambda s: Path(s).scaled(1 / 3.0, origin=2 + 1j)[0], lambda d: d),
     ('reversed_scaled1.1', lambda s: s.reversed().scaled(1.1), None),
+    ('identity', lambda s: s, lambda d: d),
+    # in the middle of a path (exact joints on both sides): re-joining the joints after the transform must not
+    # separate a control point from the end point it coincides with
+    ('midpath_scaled1.1', lambda s: _mid(s).scaled(1.1)[1], lambda d: d),
+    ('midpath_scaled_seventh_about', lambda s: _mid(s).scaled(1 / 7.0, origin=0.3 - 0.7j)[1], lambda d: d),
+    ('midpath_rotated', lambda s: _mid(s).rotated(40, origin=1.1 - 0.3j)[1], lambda d: d * cmath.exp(1j * math.radians(40))),
+    ('midpath_translated', lambda s: _mid(s).translated(0.1 + 0.2j)[1], lambda d: d),
+    ('midpath_closed_scaled1.1', lambda s: _mid(s, close=True).scaled(1.1)[1], lambda d: d),
 ]
+
+
+def _mid(s, close=False):
+    a = Line(s.start - (1.3 + 2.1j), s.start)
+    b = Line(s.end, s.end + (2.3 - 1.7j))
+    segs = [a, s, b]
+    if close:
+        segs.append(Line(b.end, a.start))
+    return Path(*segs)
 
 
 def check_coincident_transformed(name, hi, acc, only=None):
